@@ -1,5 +1,5 @@
 // @unit c08_sanitize property=C08 attach=typify-impl/src/util.rs
-// @h c08_sanitize_literals tier=native bounded=17-literal-names-x-2-cases
+// @h c08_sanitize_literals tier=native bounded=20-literal-names-x-2-cases
 // @native-canary canary_c08_sanitize
 //
 // C08 -- "arbitrary JSON names map to valid identifiers": `util::sanitize`.
@@ -8,11 +8,12 @@
 //       character XID_Start or `_`, the others XID_Continue), for both cases
 //
 // sanitize reaches syn::parse_str, which crashes kani-compiler, and heck's Unicode casing: in
-// the C08 Kani harnesses it only ever appears as a stub. BOUNDED STAND-IN (`tier=native`): 17
+// the C08 Kani harnesses it only ever appears as a stub. BOUNDED STAND-IN (`tier=native`): 20
 // literal names chosen for the classes the function distinguishes -- plain, leading ASCII digit,
 // leading NON-ASCII digit (alphanumeric, XID_Continue, not XID_Start), separators, keywords
 // (strict, reserved, `self`/`Self`/`crate`), the special-cased "+1" / "-1" / "async", quotes,
-// symbols only, empty, lone underscore, non-ASCII letters -- executed natively, both cases.
+// symbols only, empty, lone underscore, non-ASCII letters, characters that are alphanumeric but
+// not XID_Continue (superscripts, fractions, circled digits) -- executed natively, both cases.
 
 use super::*;
 
@@ -25,8 +26,9 @@ fn valid_ident(s: &str) -> bool {
     first_ok && cs.all(unicode_ident::is_xid_continue) && s != "_" && syn::parse_str::<syn::Ident>(s).is_ok()
 }
 
-const NAMES: [&str; 17] = [
+const NAMES: [&str; 20] = [
     "abc", "1abc", "٣d", "a-b c", "type", "Self", "self", "crate", "+1", "-1", "async", "'quoted'", "$%^", "", "_", "ǅx", "日本",
+    "m²", "½x", "Area①",
 ];
 
 #[kani::proof]
